@@ -220,7 +220,7 @@ class C03(RT):
     def nontrivial(self, case, obs):
         a = obs.get("a")
         if not a:
-            return case["kind"] != "hugr" and "skip" not in obs
+            return case["kind"] not in ("hugr", "hist") and "skip" not in obs
         idxs = [n["idx"] for n in a["nodes"]]
         return len(idxs) >= 4 and (idxs != list(range(len(idxs))) or any(l[1] == -1 for l in a["links"]))
 
